@@ -79,7 +79,7 @@ def run(ctx):
         if o.rule == 'R4.2' and o.module in ('petl.comparison', 'petl.transform.sorts'):
             n58 += 1
             rep.add('R5.8', (o.module, o.qualname), o.construct, o.status, o.message, o.lineno, o.detail)
-    if n58 < 9:
+    if n58 < 5:
         raise AnalysisError('anchor vanished: only %d derived-operator obligations (Comparable / _Keyed)' % n58)
     rep.rule('R5.6', 'ordering provenance in sorts.py (C04 R4.3 restricted to the module)')
     rep.rule('R5.8', 'the operators the merges rely on besides < (max() uses >, heap items use <, <=, ...) are the stated '
